@@ -27,14 +27,14 @@ type c10Call struct {
 }
 
 type c10Case struct {
-	ID       int       `json:"id"`
-	Seed     int64     `json:"seed"`
-	FileKind string    `json:"file_kind"` // missing entries shape damaged binary empty
-	File     []int     `json:"file"`
-	Load     string    `json:"load"` // ok notfound parse other panic hang
-	LoadN    int       `json:"load_n"`
-	WellFormed bool    `json:"well_formed"` // the generator knows the text is a YAML list of command entries
-	Calls    []c10Call `json:"calls"`
+	ID         int       `json:"id"`
+	Seed       int64     `json:"seed"`
+	FileKind   string    `json:"file_kind"` // missing entries shape damaged binary empty
+	File       []int     `json:"file"`
+	Load       string    `json:"load"` // ok notfound parse other panic hang
+	LoadN      int       `json:"load_n"`
+	WellFormed bool      `json:"well_formed"` // the generator knows the text is a YAML list of command entries
+	Calls      []c10Call `json:"calls"`
 }
 
 var c10Queries = []string{"", " ", "a", "list files", "\x00", "ab\x00cd", "\x00\x00", "\xff\xfe", "caf\xe9", strings.Repeat("a", 1000), strings.Repeat("compress ", 111),
